@@ -876,6 +876,13 @@ func (fr *frame) callLiteral(st *State, fv *Value, lit *ast.FuncLit, args []*Val
 			}
 		}
 	}
+	if nf.contract == nil {
+		if fr.contract != nil {
+			nf.hookContract = fr.contract
+		} else {
+			nf.hookContract = fr.hookContract
+		}
+	}
 	if fr.depth >= maxInlineDepth {
 		panic(unsupported("inlining depth exceeded in function literal"))
 	}
